@@ -153,11 +153,13 @@ def refs(o):
     return out
 
 
-# KNOWN FINDING `label-name-read-as-python` (DESIGN.md section 7, F44): a label is "a single token that ends with a colon", and inside an
-# expression a bare name is handed to Python's eval().  (name used, other label defined, what Python makes of the name used)
+# F44 (DESIGN.md section 7, repaired by 6e18198): a label is "a single token that ends with a colon", and inside an expression a bare name
+# used to be handed to Python's eval() as a Python identifier.  (name used, other label defined, what Python would make of the name used)
 PYNAMES = [('A.real', 'A', 'value of A'), ('A.numerator', 'A', 'value of A'), ('A.imag', 'A', 0), ('A.denominator', 'A', 1),
            ('tab.real', 'tab', 'value of tab'), ('n\u00ba', 'no', 'value of no'), ('\uff21', 'A', 'value of A'), ('\ufb01x', 'fix', 'value of fix'),
-           ('K\u2160', 'KI', 'value of KI')]
+           ('K\u2160', 'KI', 'value of KI'), ('main.loop', 'main', 'refused'), ('\u00b5s', '\u03bcs', 'value of \u03bcs'), ('a.b.c', 'a.b', 'refused'),
+           ('x.bit_length', 'x', 'refused'), ('\u212bngstrom', '\u00c5ngstrom', 'value of \u00c5ngstrom'), ('A.real', 'A.imag', 'refused'),
+           ('L0.conjugate', 'L0', 'refused'), ('s\u0308', 's', 'refused')]
 
 
 def run_pyname(asm, acc, case):
@@ -171,6 +173,7 @@ def run_pyname(asm, acc, case):
         acc['ntkeys'].add(core.ckey('pyname', used, d, compress))
         if not o.ok:
             acc['ctr']['pyname_refused'] += 1         # a refusal encodes nothing: C08 has nothing to say
+            core.see(acc, 'pynames_refused', used)
             continue
         at = len(o.out) - (4 if compress is False else 2) - (8 if d.startswith('dd') else 4)
         sz = 8 if d.startswith('dd') else 4
@@ -178,11 +181,12 @@ def run_pyname(asm, acc, case):
         lab = (o.labels or {}).get(used)
         if got == lab:
             acc['ctr']['pyname_resolved_to_the_label'] += 1
+            core.see(acc, 'pynames_read_as_the_label', used)
             continue
         core.add_viol(acc, '`%s` with labels %s = %r and %s = %r encodes %d: the bare name is not read as the label of that name%s' % (
             d % used, used, lab, other, (o.labels or {}).get(other), got,
             ' (Python reads it as: %s)' % reading if got == (o.labels or {}).get(other) or got == py else ''),
-            dict(case, compress=compress), {'lines': lines}, key='label-name-read-as-python' if (got == py or (isinstance(reading, str) and got == (o.labels or {}).get(other))) else None)
+            dict(case, compress=compress), {'lines': lines})
 
 
 def run_case(asm, acc, case):
